@@ -312,6 +312,24 @@ pub fn case_damage(scratch: &Path, meta: usize, id: &str, seed: u64, len: usize,
                 }
                 class = "forged_entry";
             }
+            // damage at several sites: a second and sometimes a third independent overwrite
+            if !aimed_only && class != "forged_entry" && !files.is_empty() && rng.chance(1, 4) {
+                for _ in 0..(1 + rng.below(2)) {
+                    let f = *rng.pick(&files);
+                    let flen = content(f).len() as u64;
+                    if flen == 0 {
+                        continue;
+                    }
+                    let l = (1 + rng.below(40)).min(flen);
+                    let top = live_frames.iter().filter(|x| x.file == f).map(|x| x.off + x.len).max().unwrap_or(flen).min(flen);
+                    let start = rng.below((top.max(l) - l) + 1);
+                    let data: Vec<u8> = if rng.chance(1, 2) { vec![0u8; l as usize] } else { (0..l).map(|_| rng.next() as u8).collect() };
+                    ops.push(Op::Poke { file: f, off: start, data });
+                }
+                aimed = false;
+                hit_call = None;
+                class = "multi_site";
+            }
         }
         for op in &ops {
             r.apply(op);
@@ -330,7 +348,12 @@ pub fn case_damage(scratch: &Path, meta: usize, id: &str, seed: u64, len: usize,
             Op::CopyFile { src, dst } => files.contains(dst) && files.contains(src) && content(*src).len() == content(*dst).len(),
             _ => false,
         });
-        let copies_valid = ops.iter().any(|o| matches!(o, Op::CopyBlock { .. } | Op::CopyFile { .. }));
+        // a copy of an all-zero block or file replays nothing: it is plain zeroing
+        let copies_valid = ops.iter().any(|o| match o {
+            Op::CopyBlock { f1, i1, .. } => files.contains(f1) && content(*f1).iter().skip((*i1 * BLOCK) as usize).take(BLOCK as usize).any(|b| *b != 0),
+            Op::CopyFile { src, .. } => files.contains(src) && content(*src).iter().any(|b| *b != 0),
+            _ => false,
+        });
         // forged frames are CRC "collisions" by construction: outside C08/C12; they probe C10,
         // where only positions at the top of the u64 range are known to panic (finding F4)
         let forged = class == "forged_entry";
@@ -403,6 +426,14 @@ pub fn case_damage(scratch: &Path, meta: usize, id: &str, seed: u64, len: usize,
                         let first_true = present.iter().position(|p| *p).unwrap_or(present.len());
                         if present[first_true..].iter().any(|p| !*p) {
                             r.violate("C12", format!("{}: a batch of queue {:?} was recovered with a hole or a missing tail: {:?}", ctx, bt.q, present));
+                        }
+                        // a missing head is legitimate only where the history truncated it
+                        if first_true > 0 && first_true < present.len() {
+                            if let Some(sq) = final_spec.queues.get(&bt.q) {
+                                if bt.recs[..first_true].iter().any(|b| sq.recs.contains(b)) {
+                                    r.violate("C12", format!("{}: a batch of queue {:?} was recovered without its head although no truncation removed it: {:?}", ctx, bt.q, present));
+                                }
+                            }
                         }
                         r.stats.inc("c12.batches_checked");
                     }
